@@ -163,7 +163,7 @@ fn data_for(rng: &mut Rng, tag: u32, ty: u32, count: usize) -> TData {
         }).collect()),
         5 => TData::U64((0..count).map(|_| rng.next() >> rng.below(64)).collect()),
         6 => TData::Str(match tag {
-            1125 => rng.pick(&["gzip", "zstd", "xz", "bzip2", "none", "lzma", ""]).as_bytes().to_vec(),
+            1125 => rng.pick(&["gzip", "zstd", "xz", "bzip2", "none", "lzma", "", "XZ", "xz ", "Gzip", "bzip", "non\u{e9}", "None"]).as_bytes().to_vec(),
             _ => rand_cstr(rng),
         }),
         _ => TData::Strs((0..count).map(|_| match tag {
